@@ -980,6 +980,15 @@ func writeBracketRule(c *eng.Ctx) {
 	for i, s := range wr {
 		c.Check(eng.DominatedBy(w, s.Instr, []eng.Site{acq}, nil), fmt.Sprintf("acquire<write[%d]", i), s.Instr, w, "rows are written only inside an acquired write (a flush waits for it)", "")
 	}
+	// the bracket is opened in the critical section in which the memory database is picked: Flush swaps mutable -> immutable under
+	// the family mutex and FlushFamilyTo then waits for open brackets only; a writer that picked the database before the swap and
+	// opens its bracket after the flush has written (and closed) it puts its rows into a dead database - acknowledged, in no table
+	{
+		g := acq.Instr.Parent()
+		held := p.Locks(g, nil).At(acq.Instr)
+		c.Check(held.HasField("tsdb.dataFamily.mutex", true), "bracket-opened-under-the-family-mutex", acq.Instr, g,
+			"AcquireWrite happens while the family mutex is held - the hold that read f.mutableMemDB - so a flush either sees the open bracket or the writer sees the new memory database", "held at AcquireWrite: "+held.String())
+	}
 	okDef := false
 	for _, cl := range w.AnonFuncs {
 		if p.MustPass(cl, invokeOn("", "CompleteWrite"), 0) {
@@ -987,7 +996,11 @@ func writeBracketRule(c *eng.Ctx) {
 		}
 	}
 	d := p.Sites(w, func(p *eng.Prog, in ssa.Instruction) bool { _, ok := in.(*ssa.Defer); return ok })
-	c.Check(okDef && len(d) > 0 && eng.DominatedBy(w, wr[0].Instr, d, nil) && eng.DominatedBy(w, d[0].Instr, []eng.Site{acq}, nil), "complete-deferred", nil, w,
+	acqTop := acq
+	if t := eng.TopOf(w, acq); t != nil { // the acquire may sit in a helper that picks the database: judged by the helper's call in WriteRows
+		acqTop = eng.Site{Fn: w, Instr: t}
+	}
+	c.Check(okDef && len(d) > 0 && eng.DominatedBy(w, wr[0].Instr, d, nil) && eng.DominatedBy(w, d[0].Instr, []eng.Site{acqTop}, nil), "complete-deferred", nil, w,
 		"the write is completed on every exit (deferred right after the acquire)", "")
 	fl := c.Fn("tsdb/memdb.memoryDatabase.FlushFamilyTo")
 	wt := c.One(fl, invokeOn(".writeCondition", "Wait"), "writeCondition.Wait()")
